@@ -79,7 +79,10 @@ type Tree struct {
 	// Absent, when set, makes Navigate fail for a path that names a list entry by a key value for which it returns true.
 	Absent func(keyValue string) bool
 
-	Trace   []Call
+	Trace []Call
+	// Named: every list entry a successfully resolved Navigate path named on its way (identity of each element with
+	// keys), also when a later ".." left it again
+	Named   map[string]bool
 	FaultAt int // 1-based index of the callback that fails; 0 = none
 	PanicAt int // 1-based index of the callback that panics with PanicWith instead of returning
 	// PanicWith is the panic value (any type: a data tree is foreign code).
@@ -206,6 +209,36 @@ func (e *Entry) Navigate(p *sdcpb.Path) (xpath.Entry, error) {
 	}
 	c.Result = id.String()
 	e.T.rec(c)
+	if !e.T.NoRecord {
+		var cur ID
+		if !p.GetIsRootBased() {
+			cur = e.Id.clone()
+		}
+		for _, pe := range p.GetElem() {
+			switch pe.GetName() {
+			case "..":
+				if len(cur) > 0 {
+					cur = cur[:len(cur)-1]
+				}
+			case ".":
+			default:
+				ne := Elem{Name: pe.GetName()}
+				if len(pe.GetKey()) > 0 {
+					ne.Keys = map[string]string{}
+					for k, v := range pe.GetKey() {
+						ne.Keys[k] = v
+					}
+				}
+				cur = append(cur, ne)
+				if len(ne.Keys) > 0 {
+					if e.T.Named == nil {
+						e.T.Named = map[string]bool{}
+					}
+					e.T.Named[cur.String()] = true
+				}
+			}
+		}
+	}
 	return &Entry{T: e.T, Id: id}, nil
 }
 
